@@ -258,7 +258,10 @@ contract(FR, 'Frame.equals', key='EqFrame.equals',
     defaults=dict(compare_name='False', compare_dtype='False', compare_class='False', skipna='True'),
     result='bool',
     call_alias={'TypeBlocksC.equals': 'TypeBlocks.equals'},
-    attr_alias={'TypeBlocksC.shape': '_shape'},          # ASSUMED: the property TypeBlocks.shape returns the field _shape
+    concrete_inputs='specs.t2_equals:frame_concrete_inputs', witness_on_unknown=True, witness_always=True, requires_concrete=[],
+    ensures_concrete=['result == ref_frame_equals(self, other, compare_name, compare_dtype, compare_class, skipna)'],
+    attr_alias={'TypeBlocksC.shape': '_shape',           # ASSUMED: the property TypeBlocks.shape returns the field _shape
+                'TypeBlocksC.size': 'it._shape[0] * it._shape[1]'},      # ... and TypeBlocks.size the number of cells
     requires=[
         'self._blocks._shape[0] >= 0 and self._blocks._shape[1] >= 0 and other._blocks._shape[0] >= 0 and other._blocks._shape[1] >= 0',
         'forall(lambda r, c: implies(ub("nan", self._blocks.cid, r, c) or ub("nan", other._blocks.cid, r, c), not ub("eq", self._blocks.cid, other._blocks.cid, r, c)))',
@@ -435,3 +438,26 @@ def series_concrete_inputs(model):
     cls_b = sf.Series if h['same_class'] else sf.SeriesHE
     sb = cls_b(vb if h['same_dtype'] else vb.astype(object), index=ixb, name='n' if h['same_name'] else 'other')
     return [dict(self=sa, other=sb, **opts)]
+
+
+def frame_concrete_inputs(model):
+    """witness pairs for Frame.equals: frames that differ in exactly one aspect (a label on either axis, a cell, a NaN on one side, a name, a dtype, the
+    class), with and without cells (zero rows / zero columns), each under every single option"""
+    import numpy as np
+    import static_frame as sf
+    base = sf.Frame.from_dict(dict(a=(1.0, np.nan), b=(3.0, 4.0)), index=('x', 'y'), name='n')
+    variants = [base.relabel(columns=('a', 'c')), base.relabel(index=('x', 'z')), base.assign.loc['x', 'a'](9.0), base.assign.loc['y', 'a'](5.0), base.rename('m'),
+                base.astype(object), base.to_frame_he(), base.rename(index='i'), base.rename(columns='c')]
+    pairs = [(base, v) for v in variants]
+    e0 = sf.Frame(columns=('a', 'b'))
+    pairs += [(e0, sf.Frame(columns=('a', 'c'))), (e0, sf.Frame(columns=('a', 'b'), name='m')), (sf.Frame(index=('x', 'y')), sf.Frame(index=('x', 'z'))),
+              (base.iloc[:0], base.relabel(columns=('a', 'c')).iloc[:0]), (base.iloc[:0], base.astype(object).iloc[:0]), (base.iloc[:0], base.iloc[:0].to_frame_he())]
+    opts = [dict(compare_name=False, compare_dtype=False, compare_class=False, skipna=True), dict(compare_name=True, compare_dtype=False, compare_class=False, skipna=True),
+            dict(compare_name=False, compare_dtype=True, compare_class=False, skipna=True), dict(compare_name=False, compare_dtype=False, compare_class=True, skipna=True),
+            dict(compare_name=False, compare_dtype=False, compare_class=False, skipna=False)]
+    out = []
+    for a, b in pairs:
+        for o in opts:
+            out.append(dict(self=a, other=b, **o))
+            out.append(dict(self=b, other=a, **o))
+    return out
